@@ -67,6 +67,7 @@ typedef struct xp_ctx {
 } xp_ctx;
 
 extern xp_ctx XC;
+extern const char *xp_part;
 
 void   xp_init(const char *prop, const char *tier, size_t table_entries, double budget_s);
 double xp_now(void);
